@@ -167,9 +167,19 @@ func stress(dir string, seed int64, runs, workers, ops int, table *enc.Table, tr
 					default:
 						// multi-document transaction: move one unit between two accounts
 						a, b := int32(1+r.N(4)), int32(1+r.N(4))
-						wk.DoTxn([]dbt.Call{e.Update("d.acc", false, d("_id", a), d("$inc", d("n", int32(-1))), false, nil),
+						calls := []dbt.Call{e.Update("d.acc", false, d("_id", a), d("$inc", d("n", int32(-1))), false, nil),
 							e.Update("d.acc", false, d("_id", b), d("$inc", d("n", int32(1))), false, nil),
-							e.Find("d.acc", d("_id", d("$in", bson.A{a, b})), d("_id", int32(1)), nil, 0, 0)}, r.P(20))
+							e.Find("d.acc", d("_id", d("$in", bson.A{a, b})), d("_id", int32(1)), nil, 0, 0)}
+						// calls without effect at the end of a transaction must not make it forget its earlier writes
+						switch r.N(5) {
+						case 0:
+							calls = append(calls, e.Update("d.acc", false, d("_id", int32(99)), d("$set", d("m", int32(1))), false, nil))
+						case 1:
+							calls = append(calls, e.Update("d.acc", true, d(), d("$max", d("m", int32(-1000))), false, nil))
+						case 2:
+							calls = append(calls, e.Delete("d.acc", false, d("_id", int32(98))), e.ReplaceOne("d.acc", d("_id", int32(97)), d("n", int32(0)), false))
+						}
+						wk.DoTxn(calls, r.P(20))
 					}
 				}
 			}(w, wk)
